@@ -215,4 +215,11 @@ def stage (size : Nat) (done : List ((Nat × Nat) × Bytes)) : Except Err Bytes 
     if m.2.length + m.1.1 ≠ m.1.2 then .error .sizeMismatch
     else .ok (blit slab m.1.1 m.1.2 m.2)) (List.replicate size 0)
 
+/-- the same slice assignments onto an existing buffer (`ChunkedTensorIOPreparer.prepare_read`: every chunk is read
+into its dim-0 view of the output tensor, which may be a pre-allocated tensor with old contents) -/
+def stageOnto (init : Bytes) (done : List ((Nat × Nat) × Bytes)) : Except Err Bytes :=
+  done.foldlM (fun slab m =>
+    if m.2.length + m.1.1 ≠ m.1.2 then .error .sizeMismatch
+    else .ok (blit slab m.1.1 m.1.2 m.2)) init
+
 end Ts.Slab
